@@ -29,8 +29,9 @@ Definition get_or_head (m : meth) : bool := match m with POST => false | _ => tr
     its [If-Modified-Since] class (1 = not older than the cached response: the client's copy is
     fresh; anything else = absent / older / unparsable). *)
 Record rreq := { rq_method : meth; rq_ae : N; rq_ranges : list bytes; rq_ims : N }.
-(** [request.headers().get("range")]: the first line. *)
-Definition rq_range (q : rreq) : option bytes := hd_error (rq_ranges q).
+(** [request.headers().get("range")]: the HTTP/1 request parser stores each header line with
+    [HeaderMap::insert] (utils/src/parse.rs), so the map holds the LAST line. *)
+Definition rq_range (q : rreq) : option bytes := hd_error (rev (rq_ranges q)).
 Definition fresh (q : rreq) : bool := N.eqb (rq_ims q) 1.
 
 (** What layer 4 ([handle_cache]) hands to [send]. *)
